@@ -167,21 +167,24 @@ class MenuConfigState:
         parent = self._parent_menu(self.cur_menu)
         if not parent:
             parent = self.kconf.top_node
+        left_menu = self.cur_menu
         self.shown = self.shown_nodes(parent)
-        if self.cur_menu in self.shown:
-            self.sel_node_i = self.shown.index(self.cur_menu)
-        else:
-            # The menu being left is no longer shown in its parent (a change made
-            # inside it made it invisible): fall back to the first row.
-            self.sel_node_i = 0
         self.cur_menu = parent
 
         if not self.shown:
             # Nothing left to show in the parent either
             if parent is not self.kconf.top_node:
+                self.sel_node_i = 0
                 return self.leave_menu()
             self.show_all = True
             self.shown = self.shown_nodes(parent)
+
+        if left_menu in self.shown:
+            self.sel_node_i = self.shown.index(left_menu)
+        else:
+            # The menu being left is no longer shown in its parent (a change made
+            # inside it made it invisible): fall back to the first row.
+            self.sel_node_i = 0
 
         return True
 
